@@ -79,7 +79,7 @@ Definition b2z (b : bool) : Z := if b then 1 else 0.
 (* ======================================================================= *)
 (* join                                                                      *)
 (* ======================================================================= *)
-Record meas := mk_meas {
+Record meas := mk_meas_full {
   m_date : list Z;            (* experiment:date  "YYYY-MM-DD" *)
   m_time : list Z;            (* experiment:time  "HH:MM:SS" or "HH:MM:SS.fff" *)
   m_run : Z;                  (* experiment:run index *)
@@ -87,8 +87,12 @@ Record meas := mk_meas {
   m_innate : list Z;          (* ds.features_innate *)
   m_avail : list Z;           (* ds.features (innate and computable) *)
   m_cols : list (Z * list Z); (* ds[feat] for every available feature *)
-  m_logs : list Z             (* names of the logs *)
+  m_logs : list Z;            (* names of the logs *)
+  m_sample : Z                (* experiment:sample (an id for the name) *)
 }.
+
+Definition mk_meas d tm run rate inn av cols logs : meas :=
+  mk_meas_full d tm run rate inn av cols logs 0.
 
 Definition kind (f : Z) : Z := f mod 10.
 
@@ -245,8 +249,26 @@ Record joined := mk_joined {
   j_order : list Z;             (* positions (in paths_in) in output order *)
   j_feats : list Z;
   j_cols : list (Z * list Z);
-  j_logs : list (Z * Z)
+  j_logs : list (Z * Z);
+  (* metadata of the output: export.hdf5 writes the configuration of the
+     first (earliest) input, store_metadata(metadata) then sets
+     experiment:run index (default argument: 1), the writer rectifies
+     experiment:event count from the stored features *)
+  j_date : list Z;
+  j_time : list Z;
+  j_sample : Z;
+  j_run : Z;
+  j_count : Z
 }.
+
+(* join(metadata=None): {"experiment": {"run index": 1}} *)
+Definition JOIN_RUN_INDEX : Z := 1.
+
+Definition event_count (cols : list (Z * list Z)) : Z :=
+  match cols with
+  | [] => 0
+  | (_, c) :: _ => Z.of_nat (length c)
+  end.
 
 Fixpoint tag_from (i : Z) (l : list meas) : list (Z * meas) :=
   match l with
@@ -263,14 +285,21 @@ Definition join_gen (leb : meas -> meas -> bool)
   | [] => Err EKey      (* not reached: join raises ValueError for < 2 inputs *)
   | m0 :: rest =>
       let '(feats, warn) := prune_all prune (py_sorted Z.leb (m_innate m0)) rest in
-      match join_files (acq_time8 m0) ms (map (fun f => (f, [])) feats) with
+      (* export.hdf5: features = sorted(set(features)) *)
+      let efeats := sort_dedup feats in
+      match join_files (acq_time8 m0) ms (map (fun f => (f, [])) efeats) with
       | Err e => Err e
       | Ok cols =>
           Ok {| j_order := map fst sorted;
-                j_feats := feats;
+                j_feats := efeats;
                 j_cols := cols;
                 j_logs := [(0, 0); (0, 1)] ++ (if warn then [(0, 2)] else [])
-                          ++ source_logs 1 ms |}
+                          ++ source_logs 1 ms;
+                j_date := m_date m0;
+                j_time := m_time m0;
+                j_sample := m_sample m0;
+                j_run := JOIN_RUN_INDEX;
+                j_count := event_count cols |}
       end
   end.
 
@@ -282,7 +311,7 @@ Definition part_of (m : meas) (sel : list Z -> list Z) : meas :=
   {| m_date := m_date m; m_time := m_time m; m_run := m_run m;
      m_rate := m_rate m; m_innate := m_innate m; m_avail := m_avail m;
      m_cols := map (fun fc => (fst fc, sel (snd fc))) (m_cols m);
-     m_logs := m_logs m |}.
+     m_logs := m_logs m; m_sample := m_sample m |}.
 
 Definition split_meas (m : meas) (n k : Z) : list meas :=
   map (fun ii => part_of m (select_from 0 (part_pred n k false false (Z.of_nat ii))))
@@ -335,11 +364,11 @@ Definition wf_meas (m : meas) : Prop :=
 (* interface used by the correspondence check (harness/c09.py)               *)
 (* ======================================================================= *)
 Definition raw_meas : Type :=
-  list Z * list Z * Z * Z * list Z * list Z * list (Z * list Z) * list Z.
+  list Z * list Z * Z * Z * list Z * list Z * list (Z * list Z) * list Z * Z.
 
 Definition decode_meas (t : raw_meas) : meas :=
-  let '(d, tm, run, rate, inn, av, cols, logs) := t in
-  mk_meas d tm run rate inn av cols logs.
+  let '(d, tm, run, rate, inn, av, cols, logs, sample) := t in
+  mk_meas_full d tm run rate inn av cols logs sample.
 
 Definition enc_cols (cols : list (Z * list Z)) : list Z :=
   flat_map (fun fc => fst fc :: Z.of_nat (length (snd fc)) :: snd fc) cols.
@@ -354,6 +383,9 @@ Definition enc_join (r : res joined) : list Z :=
       ++ enc_cols (j_cols j)
       ++ [Z.of_nat (length (j_logs j))]
       ++ flat_map (fun p => [fst p; snd p]) (j_logs j)
+      ++ [Z.of_nat (length (j_date j))] ++ j_date j
+      ++ [Z.of_nat (length (j_time j))] ++ j_time j
+      ++ [j_sample j; j_run j; j_count j]
   end.
 
 Definition join_flat (ms : list raw_meas) : list Z :=
@@ -367,8 +399,12 @@ Definition split_flat (c : list (Z * bool) * Z * bool * bool) : list Z :=
   match split snd evs k initial final with
   | None => [1]
   | Some parts =>
+      (* per part: events, then the sample-name suffix "i/num_files" *)
       [0; Z.of_nat (length parts)]
-      ++ flat_map (fun p => Z.of_nat (length p) :: map fst p) parts
+      ++ flat_map (fun ip => (Z.of_nat (length (snd ip)) :: map fst (snd ip))
+                             ++ [fst ip; Z.of_nat (length parts)])
+                  (combine (map (fun i => Z.of_nat i + 1) (seq 0 (length parts)))
+                           parts)
   end.
 
 (* join of the parts of a split: (measurement, n, k) *)
